@@ -5,6 +5,7 @@ mod c10;
 mod c11;
 mod c12;
 mod c15;
+mod c18;
 mod sqlchecks;
 mod sqlgen;
 mod sqlite;
@@ -24,6 +25,13 @@ fn main() {
         std::process::exit(2);
     }
     let id = args[1].clone();
+    if id == "C18-child" {
+        // qv C18-child <tier> <shard> <nshards> <from> <out>
+        let tier = if args[2] == "quick" { Tier::Quick } else { Tier::Thorough };
+        install_panic_hook();
+        c18::child(tier, args[3].parse().unwrap(), args[4].parse().unwrap(), args[5].parse().unwrap(), &args[6]);
+        return;
+    }
     let tier = match args[2].as_str() {
         "quick" => Tier::Quick,
         "thorough" => Tier::Thorough,
@@ -67,6 +75,7 @@ fn main() {
         "C11" => c11::run(&ctx),
         "C12" => c12::run(&ctx),
         "C15" => c15::run(&ctx),
+        "C18" => c18::run(&ctx),
         "probe" => {
             probe::run();
             std::process::exit(0)
